@@ -24,6 +24,10 @@ type FuncContract struct {
 	Params   []string // parameter names (trusted/interface contracts; receivers first); filled from the SSA function for /repo contracts
 	Returns  []string
 	Requires []Clause
+	Abstracts []Clause // clauses assumed at call sites only (never proved for the function): they name the function's result as an
+	                   // uninterpreted function of its arguments for callers' specs; every use is listed as an assumption
+	GhostRets []GhostRet // ghost results: a value determined inside the function (e.g. the state at loop entry), an opaque
+	                     // fresh constant for callers
 	Watch    []Clause // expressions over the entry state evaluated in a counterexample (make models readable, feed replay)
 	Given    []Clause // facts about package tables, assumed at entry and proved by the package's "tables" unit (not callers' obligations)
 	Ensures  []Clause
@@ -46,6 +50,11 @@ type FuncContract struct {
 	NoFrame  bool                // no default frame obligation (function is allowed to modify anything it reaches)
 	Bounded  string              // name of the bounded stand-in harness test for this function, if any
 	Replay   string              // name of the harness test that replays a counterexample of this function
+}
+
+type GhostRet struct {
+	Name, Sort string
+	Cl         Clause
 }
 
 type Update struct {
@@ -186,6 +195,20 @@ func (cs *ContractSet) LoadLines(path string, lines []string, lineNos []int, pkg
 			curLemma = nil
 			loop = 0
 			lets = map[string]Expr{}
+		case kw == "ghostret": // ghostret NAME SORT = expr
+			if err := needCur(); err != nil {
+				return err
+			}
+			lhs, ex, ok := strings.Cut(rest, "=")
+			if !ok {
+				return fail(fmt.Errorf("ghostret NAME SORT = expr"))
+			}
+			name, srt, _ := strings.Cut(strings.TrimSpace(lhs), " ")
+			pe, err := parse(strings.TrimSpace(ex))
+			if err != nil {
+				return fail(err)
+			}
+			cur.GhostRets = append(cur.GhostRets, GhostRet{Name: name, Sort: strings.TrimSpace(srt), Cl: Clause{Src: strings.TrimSpace(ex), E: pe, Line: where}})
 		case kw == "let": // let name = expr : abbreviation usable in the following clauses of this contract
 			name, ex, ok := strings.Cut(rest, "=")
 			if !ok {
@@ -301,7 +324,7 @@ func (cs *ContractSet) LoadLines(path string, lines []string, lineNos []int, pkg
 			if err != nil {
 				return fail(err)
 			}
-		case kw == "requires" || kw == "ensures" || kw == "invariant" || kw == "given" || kw == "watch":
+		case kw == "requires" || kw == "ensures" || kw == "invariant" || kw == "given" || kw == "watch" || kw == "abstracts":
 			if err := needCur(); err != nil {
 				return err
 			}
@@ -318,6 +341,8 @@ func (cs *ContractSet) LoadLines(path string, lines []string, lineNos []int, pkg
 				cur.Given = append(cur.Given, cl)
 			case "watch":
 				cur.Watch = append(cur.Watch, cl)
+			case "abstracts":
+				cur.Abstracts = append(cur.Abstracts, cl)
 			case "ensures":
 				cur.Ensures = append(cur.Ensures, cl)
 			default:
